@@ -85,7 +85,9 @@ def run_job(job, ctx):
         blocks = []
         for _ in range(30):
             n = r.choice([0, 1, 7, 10, 50, 99, 100, 101, 400, 4000, 10 ** 9, 18446744073709551615])
-            k = r.choice([0, 1, 5, 9, 10, 11, 49, 50, 51, 99, 100, 101, 399, 400])
+            k = r.choice([0, 1, 5, 9, 10, 11, 49, 50, 51, 99, 100, 101, 399, 400] + ([65535, 65536, 65537, 70000] if job["i"] % 8 == 5 else []))
+            if k > 60000:
+                n = r.choice([65535, 65536, 65537, 70000, 4294967296])
             lines = []
             for _ in range(k):
                 lines.append(r.choice(["v", "  v", "é", "0", "- item"]))
